@@ -210,3 +210,20 @@ Example C04_flat_variants_nonvacuous :
     (forall kv u, In kv (ti_variants ex_ti) -> getf (tv_fields (snd kv)) (F"uid") = PStr u -> ~ In c_comma u) /\
     In (F"Server", v') (ti_variants x') /\ getf (tv_paths v') (F"packages") = PStr (F"Packages").
 Proof. exact flat_variants_nonvacuous. Qed.
+
+(* the base product: read back name/version/short for a layered release; a release that is not layered is read with none *)
+From PM Require Import Proofs.TreeInfoBaseProduct.
+Theorem C04_base_product_read_back :
+  forall x mv t x', ser_ti x mv = Ok t -> deser_ti t = Ok x' ->
+  if truthy (getf (ti_release x) (F"is_layered"))
+  then getf (ti_base_product x') (F"name") = getf (ti_base_product x) (F"name") /\
+       getf (ti_base_product x') (F"version") = getf (ti_base_product x) (F"version") /\
+       getf (ti_base_product x') (F"short") = getf (ti_base_product x) (F"short")
+  else ti_base_product x' = [(F"name", PNone); (F"short", PNone); (F"version", PNone)].
+Proof. exact base_product_read_back. Qed.
+Print Assumptions C04_base_product_read_back.
+
+Example C04_base_product_nonvacuous :
+  exists t x', ser_ti ex_ti_layered None = Ok t /\ deser_ti t = Ok x' /\ truthy (getf (ti_release ex_ti_layered) (F"is_layered")) = true /\
+    getf (ti_base_product x') (F"short") = PStr (F"RHEL").
+Proof. exact base_product_nonvacuous. Qed.
